@@ -62,7 +62,31 @@ def gen_config(d: Draw, prop):
     return cfg
 
 
+def gen_host_op(d: Draw, cfg):
+    """A state change of the tidally active host itself (its spin and obliquity; its orbit is the satellite's)."""
+    n = cfg['N']
+    fields = [f for f in ('spin', 'obliquity') if d.chance(1, 2)] or [d.pick(['spin', 'obliquity'])]
+    if d.chance(1, 2):
+        args = {}
+        for f in fields:
+            if f == 'spin':
+                kind = d.pick(SPIN_KINDS)
+                args[kind] = gen_value(d, kind, n)
+            else:
+                args['obliquity'] = gen_value(d, 'obliquity', n)
+        return {'op': 'w.set_state', 'args': args, 'target': 'host'}
+    f = fields[0]
+    if f == 'spin':
+        name, kind, how = d.pick([('spin_frequency', 'spin_frequency', 'w.prop'), ('spin_period', 'spin_period', 'w.prop'),
+                                  ('set_spin_frequency', 'spin_frequency', 'w.method'), ('set_spin_period', 'spin_period', 'w.method')])
+    else:
+        name, kind, how = d.pick([('obliquity', 'obliquity', 'w.prop'), ('set_obliquity', 'obliquity', 'w.method')])
+    return {'op': how, 'name': name, 'kind': kind, 'args': {'value': gen_value(d, kind, n)}, 'target': 'host'}
+
+
 def gen_op(d: Draw, cfg, prop):
+    if cfg.get('host_tides') and prop == 'C13' and d.chance(1, 5):
+        return gen_host_op(d, cfg)
     if cfg.get('n_bodies', 1) >= 2 and d.chance(1, 3):
         # an update of the companion body: it is a simple CPL world with its own spin-sync flag
         cfg2 = dict(cfg, model='cpl', sync=cfg.get('sync2', True))
@@ -163,7 +187,8 @@ def model_apply(state, op, n_layers=None):
     kind = op['op']
     a = op.get('args', {})
     if kind != 'o.time':
-        state = state.setdefault('body%d' % op.get('target', 0), {})
+        tgt = op.get('target', 0)
+        state = state.setdefault('host' if tgt == 'host' else 'body%d' % tgt, {})
     if kind in ('w.set_state', 'o.set_state'):
         for key, v in a.items():
             if key in SEP_KINDS:
@@ -223,6 +248,14 @@ def place_twin(twin, state):
                 kw[key] = twin.value(st[key], n)
         if kw:
             world.set_state(**kw)
+    st = state.get('host', {})
+    kw = {}
+    if 'spin' in st:
+        kw[st['spin'][0]] = twin.value(st['spin'][1], n)
+    if 'obliquity' in st:
+        kw['obliquity'] = twin.value(st['obliquity'], n)
+    if kw:
+        twin.host.set_state(**kw)
 
 
 class OopStateEngine(EngineBase):
@@ -308,6 +341,10 @@ class OopStateEngine(EngineBase):
                 if d.chance(1, 2):
                     args['obliquity'] = gen_value(d, 'obliquity', n)
             ops.append({'op': 'w.set_state', 'args': args})
+            if cfg.get('host_tides') and self.prop == 'C13':
+                sk = d.pick(SPIN_KINDS)
+                ops.append({'op': 'w.set_state', 'target': 'host',
+                            'args': {sk: gen_value(d, sk, n), 'obliquity': gen_value(d, 'obliquity', n)}})
             ops = d.shuffled(ops)
         ops += [gen_op(d, cfg, self.prop) for _ in range(n_ops)]
         return {'engine': 'oopstate', 'prop': self.prop, 'seed': seed, 'config': cfg, 'ops': ops}
@@ -323,7 +360,9 @@ class OopStateEngine(EngineBase):
             if key in cfg and cfg[key] != plain:
                 if key == 'sync' and any(_has_spin(o) for o in plan['ops']):
                     continue
-                if key == 'n_bodies' and any(o.get('target') for o in plan['ops']):
+                if key in ('host', 'host_tides') and any(o.get('target') == 'host' for o in plan['ops']):
+                    continue
+                if key == 'n_bodies' and any(o.get('target') == 1 for o in plan['ops']):
                     continue
                 new = copy.deepcopy(plan)
                 new['config'][key] = plain
@@ -647,7 +686,7 @@ def _has_spin(op):
 def _abstract(state):
     out = {}
     for k, v in state.items():
-        if k.startswith('body'):
+        if k.startswith('body') or k == 'host':
             out[k] = _abstract(v)
         elif k == 'T':
             out[k] = {str(i): (x['v'], x['arr']) for i, x in v.items()}
@@ -684,7 +723,7 @@ def _op_label(op):
     args = ', '.join('%s=%s' % (k, val(v)) for k, v in op.get('args', {}).items())
     name = op.get('name')
     if op.get('target'):
-        args = 'body%d; %s' % (op['target'], args)
+        args = '%s; %s' % ('host' if op['target'] == 'host' else 'body%d' % op['target'], args)
     if op['op'] == 'layer.temperature':
         return 'layer[%d].%s(%s)' % (op['layer'], name, args)
     return '%s%s(%s)' % (op['op'], '.' + name if name else '', args)
